@@ -18,6 +18,8 @@
 #include "spqlios/q120/q120_ntt.h"
 #include "spqlios/reim/reim_fft.h"
 #include "spqlios/reim4/reim4_fftvec_public.h"
+#include "spqlios/reim4/reim4_arithmetic.h"
+#include "spqlios/coeffs/coeffs_arithmetic.h"
 
 enum { EV_MISS = 1, EV_USE = 2, EV_ENTER_MOD = 10, EV_EXIT_MOD = 11, EV_ENTER_SIMPLE = 12, EV_EXIT_SIMPLE = 13,
        EV_WARMUP_DONE = 20, EV_REFERENCE = 21, EV_THREADS_DONE = 22 };
@@ -41,7 +43,11 @@ static REIM_TO_ZNX64_PRECOMP *pToZnxA, *pToZnxB;
 static CPLX_TO_TNX32_PRECOMP *pTnxA, *pTnxB;
 static REIM_TO_TNX_PRECOMP *pToTnxA, *pToTnxB;
 static q120_ntt_precomp *pNtt, *pIntt;
+static q120_mat1col_product_baa_precomp* pBaa;
+static q120_mat1col_product_bbb_precomp* pBbb;
+static q120_mat1col_product_bbc_precomp* pBbc;
 static uint64_t gseed;
+static uint32_t g_cpu_mask;
 
 static uint64_t splitmix(uint64_t* s) {
   uint64_t z = (*s += 0x9E3779B97F4A7C15ull);
@@ -68,15 +74,20 @@ static void* al(size_t n) {
   return p;
 }
 
-#define NOPS 34
+#define NOPS 35
+#define NVAR 3                 // every operation exists in NVAR variants that differ by their data only (op number = base + NOPS * variant)
+#define NOPV (NOPS * NVAR)
 static const int op_class[NOPS] = {0, 0, 0, 0, 0, 0, 0, 0, 0, 0, 0, 0, 0, 0, 1, 1, 1, 1, 1, 1, 1, 1,   // 0: module/table, 1: simple
-                                   0, 0, 0, 0, 0, 0, 0, 0, 0, 0, 0, 0};
+                                   0, 0, 0, 0, 0, 0, 0, 0, 0, 0, 0, 0, 0};
 #define OP_FRESH 29   // every thread runs it first, released together by a barrier: first use of a dimension, side by side  // 22..27: a thread builds its OWN object, uses it and deletes it
 
 // runs operation `op` on private data derived from (gseed, op) only; returns the hash of everything it produced
-static uint64_t run_op(int op) {
-  uint64_t s = gseed * 1000003ull + (uint64_t)op;
+static uint64_t run_op(int opv) {
+  uint64_t s = gseed * 1000003ull + (uint64_t)opv;      // the variant changes the data only
+  const int op = opv % NOPS;
   uint64_t h = 0xCBF29CE484222325ull;
+  // an NTT120 module has accelerated entry points only: under a mask that denies them its table is empty, nothing to call
+  if (g_cpu_mask && (op == 7 || (op >= 22 && op <= 24))) return h;
   switch (op) {
     case 0: {  // vec_znx_add / sub / negate / copy, 3 limbs
       const uint64_t n = NBIG, sl = NBIG + 8;
@@ -440,6 +451,83 @@ static uint64_t run_op(int op) {
       q120_del_intt_bb_precomp(pi);
       break;
     }
+    case 34: {  // kernels without any table or module, called directly in their portable and accelerated variants, on private data
+      // reim4 blocks: dot products, convolutions, extract / save
+      const uint64_t nr = 5 + (s % 7);
+      double *u = al(8 * 8 * 16), *v = al(8 * 16 * 16), *d = al(8 * 64);
+      fill_dbl(u, 8 * 16, &s); fill_dbl(v, 16 * 16, &s);
+      reim4_vec_mat1col_product_ref(nr, d, u, v); h = fnv(h, d, 64);
+      reim4_vec_mat1col_product_avx2(nr, d, u, v); h = fnv(h, d, 64);
+      reim4_vec_mat2cols_product_ref(nr, d, u, v); h = fnv(h, d, 128);
+      reim4_vec_mat2cols_product_avx2(nr, d, u, v); h = fnv(h, d, 128);
+      for (uint64_t k = 0; k < 12; k += 5) {
+        reim4_convolution_1coeff_ref(k, d, u, 7, v, 6); h = fnv(h, d, 64);
+        reim4_convolution_2coeff_ref(k, d, u, 7, v, 6); h = fnv(h, d, 128);
+      }
+      reim4_convolution_ref(d, 5, 3, u, 7, v, 6); h = fnv(h, d, 8 * 8 * 5);
+      {
+        const uint64_t m = 16;
+        double *x = al(8 * 2 * m * 3), *blk = al(8 * 8 * 3), *y = al(8 * 2 * m);
+        fill_dbl(x, 2 * m * 3, &s);
+        reim4_extract_1blk_from_reim_ref(m, 2, blk, x); h = fnv(h, blk, 64);
+        reim4_extract_1blk_from_reim_avx(m, 1, blk, x); h = fnv(h, blk, 64);
+        reim4_extract_1blk_from_contiguous_reim_ref(m, 3, 2, blk, x); h = fnv(h, blk, 64 * 3);
+        reim4_extract_1blk_from_contiguous_reim_avx(m, 3, 3, blk, x); h = fnv(h, blk, 64 * 3);
+        memset(y, 0, 8 * 2 * m);
+        reim4_save_1blk_to_reim_ref(m, 1, y, blk); reim4_save_1blk_to_reim_avx(m, 3, y, blk + 8); h = fnv(h, y, 8 * 2 * m);
+        free(x); free(blk); free(y);
+      }
+      free(u); free(v); free(d);
+      // q120 products on the process-wide tables
+      {
+        const uint64_t ell = 40 + (s % 9);
+        uint64_t *qx = al(32 * 2 * ell), *qy = al(64 * 4 * ell), *qr = al(32 * 4);
+        for (uint64_t i = 0; i < 4 * 2 * ell; ++i) qx[i] = splitmix(&s);
+        for (uint64_t i = 0; i < 8 * 4 * ell; ++i) qy[i] = splitmix(&s) & 0xFFFFFFFFull;      // a / c layouts: 32-bit entries
+        q120_vec_mat1col_product_bbb_ref(pBbb, ell, (q120b*)qr, (q120b*)qx, (q120b*)(qx + 4 * ell)); h = fnv(h, qr, 32);
+        q120_vec_mat1col_product_bbb_avx2(pBbb, ell, (q120b*)qr, (q120b*)qx, (q120b*)(qx + 4 * ell)); h = fnv(h, qr, 32);
+        q120_vec_mat1col_product_baa_ref(pBaa, ell, (q120b*)qr, (q120a*)qy, (q120a*)(qy + 4 * ell)); h = fnv(h, qr, 32);
+        q120_vec_mat1col_product_baa_avx2(pBaa, ell, (q120b*)qr, (q120a*)qy, (q120a*)(qy + 4 * ell)); h = fnv(h, qr, 32);
+        q120_vec_mat1col_product_bbc_ref(pBbc, ell, (q120b*)qr, (q120b*)qx, (q120c*)qy); h = fnv(h, qr, 32);
+        q120_vec_mat1col_product_bbc_avx2(pBbc, ell, (q120b*)qr, (q120b*)qx, (q120c*)qy); h = fnv(h, qr, 32);
+        q120x2_vec_mat1col_product_bbc_ref(pBbc, ell, (q120b*)qr, (q120b*)qx, (q120c*)qy); h = fnv(h, qr, 64);
+        q120x2_vec_mat1col_product_bbc_avx2(pBbc, ell, (q120b*)qr, (q120b*)qx, (q120c*)qy); h = fnv(h, qr, 64);
+        q120x2_vec_mat2cols_product_bbc_ref(pBbc, ell, (q120b*)qr, (q120b*)qx, (q120c*)qy); h = fnv(h, qr, 128);
+        q120x2_vec_mat2cols_product_bbc_avx2(pBbc, ell, (q120b*)qr, (q120b*)qx, (q120c*)qy); h = fnv(h, qr, 128);
+        free(qx); free(qy); free(qr);
+      }
+      // coefficient kernels, both variants, and the ring maps out of place and in place at a small and a large dimension
+      for (int q = 0; q < 2; ++q) {
+        const uint64_t n = q ? 16384 : 64;
+        int64_t *a = al(8 * n), *b = al(8 * n), *r = al(8 * n);
+        double *fa = al(8 * n), *fr = al(8 * n);
+        fill_small(a, n, &s, 60); fill_small(b, n, &s, 60); fill_dbl(fa, n, &s);
+        znx_add_i64_ref(n, r, a, b); h = fnv(h, r, 8 * n);
+        znx_add_i64_avx(n, r, a, b); h = fnv(h, r, 8 * n);
+        znx_sub_i64_ref(n, r, a, b); h = fnv(h, r, 8 * n);
+        znx_sub_i64_avx(n, r, a, b); h = fnv(h, r, 8 * n);
+        znx_negate_i64_ref(n, r, a); h = fnv(h, r, 8 * n);
+        znx_negate_i64_avx(n, r, a); h = fnv(h, r, 8 * n);
+        znx_rotate_i64(n, 12345, r, a); h = fnv(h, r, 8 * n);
+        znx_automorphism_i64(n, 7, r, a); h = fnv(h, r, 8 * n);
+        znx_mul_xp_minus_one(n, -3, r, a); h = fnv(h, r, 8 * n);
+        znx_rotate_inplace_i64(n, 77, r); h = fnv(h, r, 8 * n);
+        znx_automorphism_inplace_i64(n, -5, r); h = fnv(h, r, 8 * n);
+        rnx_divide_by_m_ref(n, 64., fr, fa); h = fnv(h, fr, 8 * n);
+        rnx_divide_by_m_avx(n, 64., fr, fa); h = fnv(h, fr, 8 * n);
+        rnx_rotate_f64(n, 31, fr, fa); h = fnv(h, fr, 8 * n);
+        rnx_automorphism_f64(n, 9, fr, fa); h = fnv(h, fr, 8 * n);
+        rnx_mul_xp_minus_one(n, 5, fr, fa); h = fnv(h, fr, 8 * n);
+        rnx_rotate_inplace_f64(n, -9, fr); h = fnv(h, fr, 8 * n);
+        rnx_automorphism_inplace_f64(n, 3, fr); h = fnv(h, fr, 8 * n);
+        rnx_mul_xp_minus_one_inplace(n, 11, fr); h = fnv(h, fr, 8 * n);
+        int64_t* c = al(8 * n);
+        znx_normalize(n, 19, r, c, a, 0); h = fnv(h, r, 8 * n); h = fnv(h, c, 8 * n);
+        znx_normalize(n, 19, r, 0, b, c); h = fnv(h, r, 8 * n);
+        free(a); free(b); free(r); free(fa); free(fr); free(c);
+      }
+      break;
+    }
     default:
       break;
   }
@@ -449,6 +537,7 @@ static uint64_t run_op(int op) {
 // parameters of the calls whose thread-local table is keyed by (m, divisor, bound/overhead): reported in Enter
 static void op_params(int op, int64_t* m, double* div, int64_t* bnd) {
   *m = 0; *div = 0; *bnd = 0;
+  op %= NOPS;
   if (op == 16) { *m = 16; *div = 16.; *bnd = 50; }
   if (op == 17) { *m = 16; *div = 16.; *bnd = 60; }
   if (op == 18) { *m = 16; *div = 16. * 1048576.; *bnd = 10; }
@@ -459,9 +548,9 @@ static void traced_op(int op) {
   int64_t pm, pb;
   double pd;
   op_params(op, &pm, &pd, &pb);
-  spqlios_verif_event(op_class[op] ? EV_ENTER_SIMPLE : EV_ENTER_MOD, op, pm, *(int64_t*)&pd, pb, 0);
+  spqlios_verif_event(op_class[op % NOPS] ? EV_ENTER_SIMPLE : EV_ENTER_MOD, op, pm, *(int64_t*)&pd, pb, 0);
   uint64_t h = run_op(op);
-  spqlios_verif_event(op_class[op] ? EV_EXIT_SIMPLE : EV_EXIT_MOD, op, (int64_t)(h & 0x7FFFFFFF), (int64_t)((h >> 31) & 0x7FFFFFFF), 0,
+  spqlios_verif_event(op_class[op % NOPS] ? EV_EXIT_SIMPLE : EV_EXIT_MOD, op, (int64_t)(h & 0x7FFFFFFF), (int64_t)((h >> 31) & 0x7FFFFFFF), 0,
                       0);
 }
 
@@ -474,8 +563,8 @@ static void* worker(void* arg) {
   pthread_barrier_wait(&g_start);
   traced_op(OP_FRESH);
   for (int it = 0; it < g_iters; ++it) {
-    int op = (int)(splitmix(&s) % NOPS);
-    if (g_class0_only) while (op_class[op]) op = (int)(splitmix(&s) % NOPS);   // module-level and table operations only
+    int op = (int)(splitmix(&s) % NOPV);
+    if (g_class0_only) while (op_class[op % NOPS]) op = (int)(splitmix(&s) % NOPV);   // module-level and table operations only
     traced_op(op);
   }
   return 0;
@@ -499,8 +588,12 @@ int main(int argc, char** argv) {
   gseed = strtoull(argv[4], 0, 10);
   // the event hook takes one sequentially consistent fetch-add per event: under ThreadSanitizer that orders the operations of different
   // threads and hides races between calls that do not overlap in time; the sanitizer run is therefore made without events
-  if (!getenv("CONC_NOEVENTS")) spqlios_verif_events_enable((uint64_t)(nthreads + 2) * (uint64_t)(g_iters + NOPS + 4) * 24);
+  if (!getenv("CONC_NOEVENTS")) spqlios_verif_events_enable((uint64_t)(nthreads + 2) * (uint64_t)(g_iters + NOPV + 4) * 24);
   spqlios_verif_set_tid(0);
+  if (getenv("CONC_CPU_MASK")) {
+    g_cpu_mask = (uint32_t)strtoul(getenv("CONC_CPU_MASK"), 0, 0);
+    spqlios_verif_set_cpu_mask(g_cpu_mask);
+  }   // e.g. 15: portable kernels only
   if (!warm) {
     // a fresh process: the very first objects of the process are built by several threads side by side, before the main thread has
     // created anything (whatever a constructor initialises lazily is initialised here, concurrently)
@@ -532,8 +625,11 @@ int main(int argc, char** argv) {
   pToTnxB = new_reim_to_tnx_precomp(16, 64., 20);
   pNtt = q120_new_ntt_bb_precomp(NNTT);
   pIntt = q120_new_intt_bb_precomp(NNTT);
+  pBaa = q120_new_vec_mat1col_product_baa_precomp();
+  pBbb = q120_new_vec_mat1col_product_bbb_precomp();
+  pBbc = q120_new_vec_mat1col_product_bbc_precomp();
   if (warm) {  // the documented protocol: one call per dimension has completed before the threads start
-    for (int op = 0; op < NOPS; ++op) traced_op(op);
+    for (int op = 0; op < NOPV; ++op) traced_op(op);
     spqlios_verif_event(EV_WARMUP_DONE, 0, 0, 0, 0, 0);
   }
   g_class0_only = getenv("CONC_CLASS0_ONLY") != 0;
@@ -544,7 +640,7 @@ int main(int argc, char** argv) {
   spqlios_verif_event(EV_THREADS_DONE, 0, 0, 0, 0, 0);
   if (!warm) {  // reference values: the same calls, alone, after the concurrent phase
     spqlios_verif_event(EV_REFERENCE, 0, 0, 0, 0, 0);
-    for (int op = 0; op < NOPS; ++op) traced_op(op);
+    for (int op = 0; op < NOPV; ++op) traced_op(op);
   }
   FILE* f = fopen(argv[5], "wb");
   if (!f) return 2;
